@@ -63,6 +63,14 @@ def run(tier):
              ([0x01, 0x02, 0xFF, 0x03, 0x04, 0x5, 0xFF, 0x06], [(0, ('setchunked', True)), (0, ('nextchunk',)), (0, ('nextchunk',)), (0, ('nextchunk',)), (0, ('nextchunk',)), (0, ('position',))]),
              ([1, 2, 3, 4, 5, 6], [(0, ('byte',)), (0, ('setchunked', True)), (0, ('slice', None, None)), (1, ('slice', 1, None)), (2, ('slice', 1, 2)), (3, ('remaining',)), (0, ('remaining',))]),
              ([0x01, 0x02, 0xFF, 0x03, 0x04, 0x05, 0xFF, 0x06], [(0, ('setchunked', True)), (0, ('byte',)), (0, ('setchunked', False)), (0, ('bytes', 3)), (0, ('setchunked', True)), (0, ('remaining',)), (0, ('byte',)), (0, ('nextchunk',)), (0, ('byte',))])]
+    # slices taken from a chunked parent that has ADVANCED (one, two chunks), starting before / inside / at the parent's current chunk, then read
+    # in chunked mode themselves: a slice knows nothing of its parent's cursor
+    for d in ([1, 255, 2, 3, 255, 4, 5], [255, 1, 255, 255, 2], [1, 2, 255, 3, 255]):
+        for adv in (1, 2):
+            for b, ln in ((0, None), (0, len(d)), (1, None), (1, 3), (2, 4), (3, None)):
+                child = [(1, ('setchunked', True)), (1, ('remaining',)), (1, ('byte',)), (1, ('nextchunk',)), (1, ('remaining',)), (1, ('position',)), (1, ('byte',)),
+                         (1, ('slice', 0, None)), (2, ('setchunked', True)), (2, ('remaining',)), (2, ('nextchunk',)), (2, ('remaining',)), (2, ('byte',))]
+                hist.append((d, [(0, ('setchunked', True))] + [(0, ('nextchunk',))] * adv + [(0, ('slice', b, ln))] + child + [(0, ('remaining',)), (0, ('byte',))]))
     cases = []
     for d, ops in hist:
         obs = run_reader(rmod, d, ops)
